@@ -3,6 +3,8 @@ package main
 import (
 	"github.com/douban/gobeansdb/store"
 	"github.com/douban/gobeansdb/utils"
+	"strconv"
+	"strings"
 )
 
 // engine hash (C16): byte strings through the real fnv1a / utils.Fnv1a / murmur /
@@ -37,6 +39,20 @@ func hashInput(r *RNG, i int) []byte {
 }
 
 func hashEval(c *Ctx, op string, args []string) {
+	if op == "rcrc" {
+		// rcrc key body flag ver ts => the first 24+ksz+vsz bytes of the record as the real writer encodes it
+		flag, _ := strconv.ParseUint(args[2], 10, 32)
+		ver, _ := strconv.Atoi(args[3])
+		ts, _ := strconv.ParseUint(args[4], 10, 32)
+		key, body := unhx(args[0]), unhx(args[1])
+		enc := store.VerifEncodeRecord(key, body, uint32(flag), int32(ver), uint32(ts))
+		n := 24 + len(key) + len(body)
+		if n > len(enc) {
+			n = len(enc)
+		}
+		c.line("rcrc %s => %s", strings.Join(args, " "), hx(enc[:n]))
+		return
+	}
 	b := unhx(args[len(args)-1])
 	h := args[len(args)-1]
 	switch op {
@@ -103,6 +119,26 @@ func engineHash(c *Ctx) {
 			k := rr.Bytes(1 + rr.Intn(20))
 			c.line("crc3 %s %s %s => %d", hx(hd), hx(k), h, store.VerifCRC(hd[4:], k, b))
 		}
+	}
+	// the CRC field of whole records as the writer stores it (Record -> WriteRecord.getCRC -> file bytes): every total
+	// size around one block and random ones (the kernel alone is not the stored value: the composition over header
+	// tail, key and value is part of the definition)
+	nrec := 120
+	if c.tier == "thorough" {
+		nrec = 1500
+	}
+	for i := 0; i < nrec; i++ {
+		rr := r.Fork(uint64(i) + 1<<44)
+		ksz := 1 + rr.Intn(60)
+		total := 200 + rr.Intn(120) // key + value bytes: 200..319, straddling 256-24 and 256
+		if rr.Chance(30) {
+			total = ksz + rr.Intn(1500)
+		}
+		if total < ksz {
+			total = ksz
+		}
+		hashEval(c, "rcrc", []string{hx(rr.Bytes(ksz)), hx(rr.Bytes(total - ksz)), "0", "1", "1500000000"})
+		c.count("rcrc")
 	}
 	// a few large CRC inputs
 	big := 4
